@@ -266,3 +266,27 @@ def run_tasks(fn, tasks, nproc=16, task_timeout=300.0):
             except Exception:  # noqa
                 pass
     return [r if r is not None else ("crash", "no result") for r in results]
+
+
+# ---------------------------------------------------------------------------------------------- failure collection
+def collect_failures(items):
+    """items: iterable of (fixed: bool, witness: str, replay: dict, {class key: text}).
+
+    Protocol: `key` is the class of a violation, `witness` identifies the specific failing input.
+      * fixed part (inputs from a seed-independent list): EVERY (class, witness) pair is reported, no cap;
+      * seeded part (inputs that depend on the `seed` argument): one entry per class with witness 'random:<class>'
+        (the case with the shortest replay description is kept as the example, the count is in the text)."""
+    fixed, seeded, counts = {}, {}, {}
+    for is_fixed, witness, replay, fails in items:
+        for key, text in fails.items():
+            if is_fixed:
+                fixed[(key, witness)] = (text, replay)
+            else:
+                counts[key] = counts.get(key, 0) + 1
+                size = len(repr(replay))
+                if key not in seeded or size < seeded[key][0]:
+                    seeded[key] = (size, text, replay)
+    out = [{"key": k, "witness": w, "failure": text, "replay": dict(replay, key=k)} for (k, w), (text, replay) in sorted(fixed.items())]
+    out += [{"key": k, "witness": f"random:{k}", "failure": f"{text} [{counts[k]} seeded case(s) of this class]",
+             "replay": dict(replay, key=k)} for k, (_, text, replay) in sorted(seeded.items())]
+    return out
